@@ -640,24 +640,34 @@ func c01Header(r *Run, x *codecX) {
 	if recv != nil {
 		var order []string
 		var hdrBufObj types.Object
-		ast.Inspect(recv.Decl.Body, func(n ast.Node) bool {
-			call, ok := n.(*ast.CallExpr)
-			if !ok {
+		// (the reads may sit in a private helper of recv that the pinned tree does not have:
+		// size, t, tag := decodeHeader(&hdr))
+		var scan func(fi *FuncInfo, depth int)
+		scan = func(fi *FuncInfo, depth int) {
+			ast.Inspect(fi.Decl.Body, func(n ast.Node) bool {
+				call, ok := n.(*ast.CallExpr)
+				if !ok {
+					return true
+				}
+				k := calleeKey(info, call)
+				switch k {
+				case "p9.buffer.Read32", "p9.buffer.ReadMsgType", "p9.buffer.ReadTag":
+					base := objOfSelBase(info, call.Fun)
+					if hdrBufObj == nil {
+						hdrBufObj = base
+					}
+					if base == hdrBufObj {
+						order = append(order, strings.TrimPrefix(k, "p9.buffer."))
+					}
+				default:
+					if tf := r.L.FuncOf(callee(info, call)); tf != nil && depth == 0 && tf != fi && tf.Decl.Body != nil && !tf.Obj.Exported() && !pinnedFuncs[tf.Key] && tf.Pkg == fi.Pkg && hdrBufObj == nil {
+						scan(tf, depth+1)
+					}
+				}
 				return true
-			}
-			k := calleeKey(info, call)
-			switch k {
-			case "p9.buffer.Read32", "p9.buffer.ReadMsgType", "p9.buffer.ReadTag":
-				base := objOfSelBase(info, call.Fun)
-				if hdrBufObj == nil {
-					hdrBufObj = base
-				}
-				if base == hdrBufObj {
-					order = append(order, strings.TrimPrefix(k, "p9.buffer."))
-				}
-			}
-			return true
-		})
+			})
+		}
+		scan(recv, 0)
 		got := strings.Join(order, " ")
 		r.check(got == "Read32 ReadMsgType ReadTag", "r7", "recv header order", recv.Decl.Pos(), "size[4] type[1] tag[2] parsed in that order", "header reads are ["+got+"], want Read32 ReadMsgType ReadTag")
 		// The header is read with io.ReadAtLeast(r, hdr[:], headerLength).
@@ -696,7 +706,7 @@ func c01SendHeader(r *Run, x *codecX, send *FuncInfo) {
 	// the array a header buffer aliases: buffer{data: E[:0]} with E the 7-byte array (or a pointer to it)
 	aliased := func(obj types.Object) ast.Expr {
 		var out ast.Expr
-		decl := r.L.declAt(obj.Pos())
+		decl := r.L.declOf(obj)
 		if decl == nil {
 			return nil
 		}
